@@ -103,8 +103,30 @@ pub fn domain_gate(map: &Beatmap) -> Result<(), &'static str> {
 /// Generate the input text for case of a domain.
 pub fn gen_input(t: &mut Tape, adversarial: bool) -> (Vec<u8>, &'static str) {
     if adversarial {
-        match t.weighted(&[6, 3]) {
+        match t.weighted(&[6, 3, 2]) {
             0 => (gen_map(t, &MapProfile::adversarial(ALL_MODES, 120)).render().into_bytes(), "input:adversarial-spec"),
+            2 if !super::c06::fixtures().is_empty() => {
+                // a real ranked map (first 80 objects) with its mode line rewritten and a few numeric tokens
+                // of its object / timing lines replaced by values at the parser limits
+                let text = t.pick(super::c06::fixtures()).clone();
+                let mode = t.below(4);
+                let mut lines: Vec<String> = text
+                    .lines()
+                    .map(|l| if l.starts_with("Mode:") { format!("Mode: {mode}") } else { l.to_string() })
+                    .collect();
+                let first_obj = lines.iter().position(|l| l.starts_with("[TimingPoints]")).unwrap_or(0);
+                for _ in 0..t.range(0, 4) {
+                    let i = first_obj + t.below_usize(lines.len() - first_obj);
+                    let mut fields: Vec<String> = lines[i].split(',').map(str::to_string).collect();
+                    if fields.len() < 3 {
+                        continue;
+                    }
+                    let f = t.below_usize(fields.len().min(8));
+                    fields[f] = (*t.pick(&["0", "1", "-1", "512", "2147483647", "-2147483648", "131072", "16777216", "9000", "100", "0.001", "1e9", "60000", "6"])).to_string();
+                    lines[i] = fields.join(",");
+                }
+                (lines.join("\n").into_bytes(), "input:mutated-fixture")
+            }
             _ => {
                 // a rendered spec with token-level corruption (numbers at the parser limits)
                 let text = gen_map(t, &MapProfile::adversarial(ALL_MODES, 60)).render();
